@@ -65,7 +65,7 @@ func (it *Interp) now() *Term {
 
 func (it *Interp) newTimerChan(label string) *ChanObj {
 	it.chanSeq++
-	return &ChanObj{cp: 1, id: it.chanSeq, label: label, maybeReady: !it.job.TimersNeverFire, readyVal: it.makeTime(it.ctx.BV(1, 64)), elem: it.timeType()}
+	return &ChanObj{cp: 1, id: it.chanSeq, label: label, maybeReady: !it.job.TimersNeverFire || it.job.TimerBudget > 0, readyVal: it.makeTime(it.ctx.BV(1, 64)), elem: it.timeType()}
 }
 
 func timeModel(name string) interceptFn {
@@ -187,7 +187,7 @@ func (it *Interp) ctxState(c *CtxObj) bool {
 		it.ctxCancel(c, c.parent.err)
 		return true
 	}
-	if c.mayFire && !it.job.TimersNeverFire {
+	if c.mayFire && (!it.job.TimersNeverFire || it.job.TimerBudget > 0) && it.timerMayFire() {
 		if it.branch(it.fresh("ctx_deadline_"+c.label, SBool), "ctxdeadline") {
 			it.ctxCancel(c, "deadline")
 			return true
